@@ -220,6 +220,19 @@ def many_layer_files(rng: random.Random) -> List[Tuple[str, bytes]]:
     return out
 
 
+def big_tileset_files(rng: random.Random) -> List[Tuple[str, bytes]]:
+    """an indexed sprite whose tileset is large enough (40 tiles of 96 x 96) for anything derived from it on first use to take a
+    noticeable time: the cold-start pass of the threads mode then has 16 threads asking for it at once"""
+    tw = th = 96
+    nt = 40
+    pal = [(rng.randrange(256), rng.randrange(256), rng.randrange(256), 255) for _ in range(16)]
+    px = bytes(((t * 5 + (i // tw) + (i % tw) * 3) & 15) if t else 0 for t in range(nt) for i in range(tw * th))
+    tiles = [rng.randrange(nt) for _ in range(4 * 3)]
+    fr = ase.Frame(chunks=[ase.PaletteChunk(entries=pal), ase.TilesetChunk(id=0, tile_count=nt, tile_w=tw, tile_h=th, pixels=px, zlevel=6),
+                           ase.LayerChunk(ltype=2, tileset=0, name="map"), ase.CelChunk(layer=0, ctype_cel=3, w=4, h=3, tiles=tiles, zlevel=6)])
+    return [("indexed sprite with a 40 x 96x96 tileset (cold-start contention)", ase.serialize(ase.Sprite(width=200, height=150, depth=8, frames=[fr, ase.Frame()])))]
+
+
 def small_corpus(limit: int) -> List[str]:
     return [p for p in corpus_files() if os.path.getsize(p) <= limit]
 
@@ -2309,7 +2322,7 @@ def check_C16(tier: str, seed: int) -> int:
             items.append((w.put(data), "generated"))
         for s, data in extreme_canvas_sprites(rng, 12 if tier == "quick" else 100):
             items.append((w.put(data), "tilemap sprite with canvas %dx%d" % (s["width"], s["height"])))
-        for desc, data in many_layer_files(rng):
+        for desc, data in many_layer_files(rng) + big_tileset_files(rng):
             items.append((w.put(data), desc))
         stream = corruption_stream(rng, "quick", w, scale=0.08 if tier == "quick" else 0.5)
         pre = vplib.impl_observe("release", [p for p, _ in stream], w.dir, 0, mem_kb=2 * 1024 * 1024)
@@ -2321,7 +2334,13 @@ def check_C16(tier: str, seed: int) -> int:
         cmd_tail = ["--level", "15", "--max-frames", "3", "--max-layers", "5"]
         thr = {prof: vplib.run_sharded([vplib.impl_driver(prof), "threads"] + cmd_tail, paths, w.dir, "thr_" + prof, shards=4, timeout=2400,
                                        mem_kb=4000000) for prof in ("release", "dev")}
-        mb = vplib.model_observe(paths, w.dir, 15, max_frames=3, max_layers=5)
+        # (the model needs minutes for 40 tiles of 96 x 96 pixels: that input is compared across repetitions / threads / builds only)
+        with_model = [i for i, (_p, d) in enumerate(items) if "cold-start" not in d]
+        with_model_set = set(with_model)
+        mres = vplib.model_observe([paths[i] for i in with_model], w.dir, 15, max_frames=3, max_layers=5)
+        mb: List[object] = [None] * len(items)
+        for i, r in zip(with_model, mres):
+            mb[i] = r
         for i, (p, desc) in enumerate(items):
             br, bd = thr["release"][i], thr["dev"][i]
             for prof, b in (("release", br), ("dev", bd)):
@@ -2341,6 +2360,8 @@ def check_C16(tier: str, seed: int) -> int:
             hd = next((l for l in bd[0] if l[0] == 51), None) if bd else None
             if hr != hd:
                 direct_fail.append({"what": "optimised and unoptimised builds observe different results", "input": desc, "_data": open(p, "rb").read()})
+            if i not in with_model_set:
+                continue
             if hr is not None and outcome(mb[i]) == 0:
                 text = "".join(" ".join(map(str, l)) + "\n" for l in mb[i][0][1:])
                 if list(fnv_halves(text)) != hr[1:3]:
